@@ -60,3 +60,74 @@ Fixpoint set_assoc {V} (n : name) (v : V) (l : list (name * V)) : list (name * V
   end.
 
 Definition mem_name (n : name) (l : list name) : bool := existsb (N.eqb n) l.
+
+(* ---------------------------------------------------------------- which statement of a body binds a name (syntax only) *)
+Inductive binder :=
+| BClass (base : option path) (body : list stmt)
+| BDef
+| BImportTop (a : name)
+| BImportAs (t : path)
+| BFrom (level : nat) (modname : path) (orig : name)
+| BAlias (expr : path).
+
+Fixpoint from_binder (level : nat) (modname : path) (names : list (name * option name)) (n : name) : option binder :=
+  match names with
+  | [] => None
+  | (orig, asname) :: rest =>
+    match from_binder level modname rest n with
+    | Some b => Some b
+    | None => if N.eqb (match asname with Some a => a | None => orig end) n
+              then Some (BFrom level modname orig) else None
+    end
+  end.
+
+Definition stmt_binder (s : stmt) (n : name) : option binder :=
+  match s with
+  | SImport (a :: _) None => if N.eqb a n then Some (BImportTop a) else None
+  | SImport t (Some c) => if N.eqb c n then Some (BImportAs t) else None
+  | SImport [] None => None
+  | SFrom level modname names => from_binder level modname names n
+  | SStar _ _ => None
+  | SClass c base body => if N.eqb c n then Some (BClass base body) else None
+  | SDef f => if N.eqb f n then Some BDef else None
+  | SAlias x e => if N.eqb x n then Some (BAlias e) else None
+  end.
+
+(* the LAST statement of the body that binds n wins *)
+Fixpoint binder_of (body : list stmt) (n : name) : option binder :=
+  match body with
+  | [] => None
+  | s :: rest =>
+    match binder_of rest n with
+    | Some b => Some b
+    | None => stmt_binder s n
+    end
+  end.
+
+Fixpoint descend (body : list stmt) (qual : path) : option (list stmt) :=
+  match qual with
+  | [] => Some body
+  | c :: r => match binder_of body c with
+              | Some (BClass _ b) => descend b r
+              | _ => None
+              end
+  end.
+
+Definition scope_body (P : project) (m qual : path) : option (list stmt) :=
+  match find_module P m with
+  | Some mm => descend (m_body mm) qual
+  | None => None
+  end.
+
+Definition class_base (P : project) (m qual : path) : option path :=
+  match qual with
+  | [] => None
+  | _ => match scope_body P m (removelast qual) with
+         | Some body => match binder_of body (last qual 0%N) with
+                        | Some (BClass base _) => base
+                        | _ => None
+                        end
+         | None => None
+         end
+  end.
+
